@@ -904,6 +904,12 @@ def builtin(I, name, args, kwargs, node, env):
         xs = args[0].items if len(args) == 1 and isinstance(args[0], Tup) else args
         if len(args) == 1 and isinstance(args[0], Arr):
             return alg.fn(name, args[0].val) if isinstance(args[0].val, Expr) else Unknown(name)
+        if not xs:
+            if "default" in kwargs:
+                return kwargs["default"]
+            raise I_.raise_exc("ValueError", node, "%s() of an empty sequence" % name)
+        if any(isinstance(x, GenList) for x in xs):
+            return Unknown("%s of a generated list" % name)
         if all(isinstance(x, Expr) for x in xs):
             cs = [x.as_const() for x in xs]
             if all(c is not None for c in cs):
@@ -1531,6 +1537,27 @@ def np_count_nonzero(I, args, kwargs, node):
     return Unknown("np.count_nonzero")
 
 
+def np_logical(op):
+    def h(I, args, kwargs, node):
+        xs = list(args)
+        shapes = [x.shape if isinstance(x, Arr) else () for x in xs]
+        shape = shapes[0]
+        for s2 in shapes[1:]:
+            shape = broadcast(I, shape, s2, node)
+        vals = [val_of(x) for x in xs]
+        if any(v is BOT for v in vals):
+            val = BOT
+        elif any(isinstance(v, Unknown) for v in vals):
+            val = Unknown("np.logical_%s of an unmodelled mask" % op)
+        elif all(isinstance(v, bool) for v in vals):
+            val = (all(vals) if op == "and" else any(vals)) if op != "not" else (not vals[0])
+        else:
+            val = BoolCombo(op, vals)
+        return Arr(shape, val, "bool") if shape else val
+
+    return h
+
+
 def np_roll(I, args, kwargs, node):
     x, shift = args[0], _kw(args, kwargs, 1, "shift")
     if isinstance(x, Arr) and x.ndim == 1 and isinstance(x.val, Expr) and isinstance(shift, Expr) and kwargs.get("axis") is None:
@@ -1715,6 +1742,9 @@ EXT = {
     "numpy.linspace": np_linspace,
     "numpy.arange": np_arange,
     "numpy.roll": np_roll,
+    "numpy.logical_and": np_logical("and"),
+    "numpy.logical_or": np_logical("or"),
+    "numpy.logical_not": np_logical("not"),
     "numpy.concatenate": np_concatenate,
     "numpy.isin": np_isin,
     "numpy.count_nonzero": np_count_nonzero,
